@@ -161,6 +161,30 @@ func runC13(sc C13Script) *c13Result {
 		}
 	}
 	var busy sync.WaitGroup
+	if sc.Cause == "localHoldWrite" {
+		// the connection is closed on purpose with a reason: the close message reaches the peer, which answers
+		// it at once, while the write call of the connection under test has not returned yet
+		_, w, _ := a.counters()
+		a.ArmHoldWrite(w + 1)
+		closed := make(chan struct{})
+		go func() { sut.CloseDataConnection(4500, "User close"); close(closed) }()
+		select {
+		case <-a.HoldingW:
+			// the peer's answer is read by the read pump now; its own reply to that answer has to wait for
+			// the held write (the websocket library serialises writers) and gives up after a second
+			time.Sleep(1500 * time.Millisecond)
+			synctest.Wait()
+
+		case <-time.After(time.Second):
+		}
+		a.ReleaseWrite()
+		<-closed
+		emu.Lock()
+		ended = true
+		emu.Unlock()
+		synctest.Wait()
+		total = 0
+	}
 	if sc.Cause == "localHoldRead" {
 		// a message is read from the socket completely, but before the pump looks at the result
 		// the connection is closed locally: the message must not be delivered any more
@@ -182,7 +206,7 @@ func runC13(sc C13Script) *c13Result {
 			synctest.Wait()
 			markIfReported()
 		}
-		if i == sc.After && sc.Cause != "read" && sc.Cause != "write" && sc.Cause != "none" && sc.Cause != "localHoldRead" {
+		if i == sc.After && sc.Cause != "read" && sc.Cause != "write" && sc.Cause != "none" && sc.Cause != "localHoldRead" && sc.Cause != "localHoldWrite" {
 			if sc.Busy {
 				busy.Add(1)
 				go func() { defer busy.Done(); cause() }()
@@ -205,7 +229,7 @@ func runC13(sc C13Script) *c13Result {
 			peerSend(i - step)
 		}
 	}
-	if sc.After >= total && sc.Cause != "read" && sc.Cause != "write" && sc.Cause != "none" && sc.Cause != "localHoldRead" {
+	if sc.After >= total && sc.Cause != "read" && sc.Cause != "write" && sc.Cause != "none" && sc.Cause != "localHoldRead" && sc.Cause != "localHoldWrite" {
 		synctest.Wait()
 		cause()
 	}
@@ -314,7 +338,7 @@ func judgeC13(t *testing.T, sc C13Script) (key, msg string, res *c13Result) {
 		}
 		return "", "", res
 	}
-	deliberate := sc.Cause == "local" || sc.Cause == "localReason" || sc.Cause == "localReasonWriteFault" || sc.Cause == "localHoldRead"
+	deliberate := sc.Cause == "local" || sc.Cause == "localReason" || sc.Cause == "localReasonWriteFault" || sc.Cause == "localHoldRead" || sc.Cause == "localHoldWrite"
 	what := fmt.Sprintf("cause %s k=%d (session: %d reads, %d writes)", sc.Cause, sc.K, res.Reads, res.Writes)
 	if deliberate {
 		if len(res.Errors) > 0 {
@@ -415,10 +439,10 @@ func TestC13(t *testing.T) {
 			sc.Cause, sc.K = "write", k
 			judge(sc)
 		}
-		for _, c := range []string{"peerClose", "eof", "local", "localReason", "localReasonWriteFault", "localHoldRead"} {
+		for _, c := range []string{"peerClose", "eof", "local", "localReason", "localReasonWriteFault", "localHoldRead", "localHoldWrite"} {
 			sc := base
 			sc.Cause = c
-			if c == "localReasonWriteFault" || c == "localHoldRead" {
+			if c == "localReasonWriteFault" || c == "localHoldRead" || c == "localHoldWrite" {
 				// the fault is meant for the close frame itself: no concurrent data write may consume it
 				sc.Busy = false
 			}
